@@ -156,7 +156,7 @@ def run_r2(ctx, rule):
     reach_defs, reach_norm = giveup_reaching(facts)
     nsites = 0
     for f, bb, t in util.calls_to(facts, lambda n: n == LR + "line_at_offset"):
-        if f.crate == "ext":
+        if f.crate in ("ext", "promoted"):
             continue
         sy = sym(f)
         k = sy.operand(t["args"][1])
@@ -237,7 +237,7 @@ R3_EXEMPT = {
 def token_fns(facts):
     out = []
     for f in facts.fns.values():
-        if f.kind == "Closure" or f.crate == "ext":
+        if f.kind == "Closure" or f.crate in ("ext", "promoted"):
             continue
         nid = norm(f.id)
         if "::token::" in nid and f.crate in FORMAT_CRATES:
@@ -319,7 +319,7 @@ R3_EXEMPT = {
 def token_fns(facts):
     out = []
     for f in facts.fns.values():
-        if f.kind == "Closure" or f.crate == "ext":
+        if f.kind == "Closure" or f.crate in ("ext", "promoted"):
             continue
         nid = norm(f.id)
         if "::token::" in nid and f.crate in FORMAT_CRATES:
@@ -363,7 +363,7 @@ def run_r4(ctx, rule):
     facts = ctx.facts
     n_at = 0
     for f, bb, t in util.calls_to(facts, lambda n: n == LR + "give_up_at"):
-        if f.crate == "ext" or norm(f.id).startswith(LR):
+        if f.crate in ("ext", "promoted") or norm(f.id).startswith(LR):
             continue
         n_at += 1
         sy = sym(f)
